@@ -204,14 +204,31 @@ class Cache(object):
         return orig_seq
 
     def _dump_flow_and_yield(self, flow):
-        # fill cache and yield values
-        with open(self._filename, "wb") as f:
-            dump = lambda val: self._dump(val, f, self.protocol)
-            for val in flow:
-                # if there were an error in a next element,
-                # our value will be saved first (before yielding)
-                dump(val)
-                yield val
+        # fill cache and yield values.
+        # Values are written to a temporary file,
+        # which becomes the cache only after the whole flow was saved.
+        # Otherwise an interrupted run would leave an incomplete cache,
+        # which would be loaded as the complete flow next time.
+        tmp_filename = self._filename + ".tmp"
+        complete = False
+        try:
+            with open(tmp_filename, "wb") as f:
+                dump = lambda val: self._dump(val, f, self.protocol)
+                for val in flow:
+                    dump(val)
+                    yield val
+            complete = True
+        finally:
+            if complete:
+                # os.replace overwrites an existing file on all systems
+                # (it is missing in Python 2)
+                getattr(os, "replace", os.rename)(tmp_filename,
+                                                  self._filename)
+            else:
+                try:
+                    os.remove(tmp_filename)
+                except OSError:
+                    pass
 
 
     def _load_flow(self):
